@@ -212,7 +212,7 @@ func verifH_C06_form() {
 	verifReach("end")
 }
 
-//verif:harness id=C06 tier=quick,thorough witness=end bounds="media type keys carrying parameters: declared content = subsets of {'text/plain; v=2', 'text/plain', 'text/*'} each with its own symbolic maxLength x Content-Type in {'text/plain; v=2' (exact key), 'text/plain', 'text/plain;v=2' (other spelling), 'text/plain; charset=utf-8; v=2' (two parameters)} x body of 1-2 ASCII bytes through ValidateRequestBody: the entry is chosen by exact string, then bare type, then type/*"
+//verif:harness id=C06 tier=quick,thorough witness=end bounds="media type keys carrying parameters: declared content = subsets of {'text/plain; v=2', 'text/plain', 'text/*'} each with its own symbolic maxLength x Content-Type in {'text/plain; v=2' (exact key), 'text/plain', 'text/plain;v=2' (other spelling), 'text/plain; charset=utf-8; v=2' (two parameters), 'Text/PLAIN' (type and subtype are case-insensitive), 'text/plain ; v=2' (white space before the semicolon)} x body of 1-2 ASCII bytes through ValidateRequestBody: the entry is chosen by exact string, then bare type, then type/*"
 func verifH_C06_paramkey() {
 	keys := []string{"text/plain; v=2", "text/plain", "text/*"}
 	lens := []uint64{verifNondetUint64("lenExact"), verifNondetUint64("lenBare"), verifNondetUint64("lenWild")}
@@ -225,8 +225,8 @@ func verifH_C06_paramkey() {
 	}
 	rb := &openapi3.RequestBody{Required: true, Content: content}
 	op := &openapi3.Operation{RequestBody: &openapi3.RequestBodyRef{Value: rb}}
-	cti := verifChoose("ct", 4)
-	ct := []string{"text/plain; v=2", "text/plain", "text/plain;v=2", "text/plain; charset=utf-8; v=2"}[cti]
+	cti := verifChoose("ct", 6)
+	ct := []string{"text/plain; v=2", "text/plain", "text/plain;v=2", "text/plain; charset=utf-8; v=2", "Text/PLAIN", "text/plain ; v=2"}[cti]
 	text := verifLeaf("b", 2, "")
 	input := verifBodyInput(op, ct, text, true, &Options{})
 	err := ValidateRequestBody(context.Background(), input, rb)
